@@ -320,7 +320,9 @@ def run_design(ctx):
     order = [names[i % n_cond] for i in range(n_cond * n_blocks)]
     order = [order[i] for i in rng.permutation(len(order))]
     gap = dur + 12
-    onsets = np.array([4 * tr + i * gap for i in range(len(order))])
+    # the first block may have begun before the first volume (a negative onset: its response tail still lies in the scan)
+    start = float(gen.pick(rng, [4 * tr, 4 * tr, 4 * tr, -1.3, -2 * tr]))
+    onsets = np.array([start + i * gap for i in range(len(order))])
     n_vols = int(np.ceil((onsets[-1] + dur + 40) / tr)) + 6
     events = pd.DataFrame({'onset': onsets, 'duration': dur, 'trial_type': order})
     if rng.integers(2):
@@ -395,6 +397,8 @@ def run_design(ctx):
             return
     # shifting all onsets by whole TRs shifts the predictors by the same number of volumes
     k = int(rng.integers(1, 4))
+    if start < 0:
+        return      # (a block cut off by the start of the scan is a different predictor once it is shifted into the scan)
     ev2 = events.copy()
     ev2['onset'] = ev2['onset'] + k * tr
     dm2, _, _ = make_design_matrix(ev2, tr, n_vols, conf)
